@@ -425,11 +425,14 @@ class Expander:
                     for s in node.body:
                         if isinstance(s, ast.FunctionDef):
                             self._do_function(modname, node, s)
+            split_chained_assignments(m.tree)
             collapse_copies(m.tree)
             attribute_read_aliases(m.tree)
             attribute_aliases(m.tree)
             sink_selected_receivers(m.tree)
             unroll_literal_loops(m.tree)
+            key_loops_to_items(m.tree)
+            flatten_spellings(m.tree)
             loops_to_comprehensions(m.tree)
             flatten_spellings(m.tree)
             more_spellings(m.tree)
@@ -515,6 +518,31 @@ def collapse_copies(tree: ast.AST):
                     i += 1
 
 
+def split_chained_assignments(tree: ast.AST):
+    """`a = self.b = E` (plain names and attribute paths only) is `self.b = E; a = self.b`: every target is bound to the one
+    object E evaluates to; the attribute (if any) is written first and the others are read back from it."""
+    for owner in ast.walk(tree):
+        for field in ("body", "orelse", "finalbody"):
+            blk = getattr(owner, field, None)
+            if not (isinstance(blk, list) and blk and isinstance(blk[0], ast.stmt)):
+                continue
+            i = 0
+            while i < len(blk):
+                st = blk[i]
+                if isinstance(st, ast.Assign) and len(st.targets) > 1 and all(isinstance(t, ast.Name) or (isinstance(t, ast.Attribute) and _pure_path(t)) for t in st.targets):
+                    prim = next((t for t in st.targets if isinstance(t, ast.Attribute)), st.targets[0])
+                    others = [t for t in st.targets if t is not prim]
+                    load = _clone(prim)
+                    load.ctx = ast.Load()
+                    new = [ast.copy_location(ast.Assign(targets=[prim], value=st.value), st)] + [ast.copy_location(ast.Assign(targets=[t], value=_clone(load)), st) for t in others]
+                    for n_ in new:
+                        ast.fix_missing_locations(n_)
+                    blk[i:i + 1] = new
+                    i += len(new)
+                    continue
+                i += 1
+
+
 def attribute_read_aliases(tree: ast.AST):
     """`x = self.a` / `x = param.a.b` at the top level of a function, with `x` bound once, the root never rebound, the path not
     re-assigned later in the function and (for `self.a`) no later `self.<m>()` that may rebind `a`: `x` names the same object as
@@ -552,7 +580,8 @@ def attribute_read_aliases(tree: ast.AST):
                         continue
                     path = ast.unparse(st.value)
                     # the path (or a prefix of it) is re-assigned later in the function
-                    if any((path == p_ or path.startswith(p_ + ".")) and ln >= st.lineno for p_, ln in attr_store_paths):
+                    later_stores = [ast.unparse(y) for b in fn.body[j + 1:] for y in ast.walk(b) if isinstance(y, ast.Attribute) and isinstance(y.ctx, (ast.Store, ast.Del))]
+                    if any(path == p_ or path.startswith(p_ + ".") for p_ in later_stores):
                         continue
                     if any(isinstance(y, ast.Name) and y.id == x and isinstance(y.ctx, ast.Load) for b in fn.body[:j + 1] for y in ast.walk(b)):
                         continue          # used before / in the alias statement (a loop back edge could reach it)
@@ -1013,6 +1042,12 @@ def loops_to_comprehensions(tree: ast.AST):
                     if len(lb) != len(loop.body) and is_list and all(isinstance(b, ast.Expr) for b in lb):
                         loop.body = lb
                         ast.fix_missing_locations(loop)
+                    # `d += E` right after `d = []` is d.extend(E)
+                    if is_list:
+                        for k_b, b in enumerate(loop.body):
+                            if isinstance(b, ast.AugAssign) and isinstance(b.op, ast.Add) and isinstance(b.target, ast.Name) and b.target.id == d:
+                                loop.body[k_b] = ast.copy_location(ast.Expr(value=ast.Call(func=ast.Attribute(value=ast.Name(id=d, ctx=ast.Load()), attr="extend", ctx=ast.Load()), args=[b.value], keywords=[])), b)
+                                ast.fix_missing_locations(loop.body[k_b])
                     exts = loop.body if is_list and 1 <= len(loop.body) <= 3 and all(
                         isinstance(b, ast.Expr) and isinstance(b.value, ast.Call) and isinstance(b.value.func, ast.Attribute) and b.value.func.attr == "extend" and isinstance(b.value.func.value, ast.Name)
                         and b.value.func.value.id == d and len(b.value.args) == 1 and not b.value.keywords and not any(isinstance(x, ast.Name) and x.id == d for x in ast.walk(b.value.args[0])) for b in loop.body) else None
@@ -1088,6 +1123,26 @@ def flatten_spellings(tree: ast.AST):
                     setattr(node, f, new)
     for fn_ in [n for n in ast.walk(tree) if isinstance(n, ast.FunctionDef)]:
         local = _locals_of(fn_)
+        binds: Dict[str, List[ast.AST]] = {}
+        params_ = {a.arg for a in fn_.args.args + fn_.args.kwonlyargs + fn_.args.posonlyargs}
+        for x in ast.walk(fn_):
+            if isinstance(x, ast.Assign):
+                for t in x.targets:
+                    for nm in ast.walk(t):
+                        if isinstance(nm, ast.Name):
+                            binds.setdefault(nm.id, []).append(x.value if isinstance(t, ast.Name) else None)
+            elif isinstance(x, (ast.For, ast.comprehension)):
+                for nm in ast.walk(x.target):
+                    if isinstance(nm, ast.Name):
+                        binds.setdefault(nm.id, []).append(None)
+            elif isinstance(x, (ast.With, ast.ExceptHandler, ast.NamedExpr, ast.AnnAssign)):
+                for nm in ast.walk(x):
+                    if isinstance(nm, ast.Name) and isinstance(nm.ctx, ast.Store):
+                        binds.setdefault(nm.id, []).append(None)
+
+        def _is_list(v):
+            return isinstance(v, (ast.List, ast.ListComp)) or (isinstance(v, ast.Call) and isinstance(v.func, ast.Name) and v.func.id in ("list", "sorted"))
+        list_locals = {n_ for n_, vs in binds.items() if n_ not in params_ and vs and all(v is not None and _is_list(v) for v in vs)}
         for owner in ast.walk(fn_):
             for field in ("body", "orelse", "finalbody"):
                 blk = getattr(owner, field, None)
@@ -1100,6 +1155,11 @@ def flatten_spellings(tree: ast.AST):
                         g_ = st.value.args[0]
                         app = ast.Expr(value=ast.Call(func=ast.Attribute(value=st.value.func.value, attr="append", ctx=ast.Load()), args=[g_.elt], keywords=[]))
                         blk[k] = ast.copy_location(ast.For(target=g_.generators[0].target, iter=g_.generators[0].iter, body=[app], orelse=[], type_comment=None), st)
+                        ast.fix_missing_locations(blk[k])
+                        continue
+                    # `l += E` on a local that is only ever bound to list displays / list() / comprehensions  is  l.extend(E)
+                    if isinstance(st, ast.AugAssign) and isinstance(st.op, ast.Add) and isinstance(st.target, ast.Name) and st.target.id in local and st.target.id in list_locals:
+                        blk[k] = ast.copy_location(ast.Expr(value=ast.Call(func=ast.Attribute(value=ast.Name(id=st.target.id, ctx=ast.Load()), attr="extend", ctx=ast.Load()), args=[st.value], keywords=[])), st)
                         ast.fix_missing_locations(blk[k])
                         continue
                     if isinstance(st, ast.Expr) and isinstance(st.value, ast.Call) and isinstance(st.value.func, ast.Attribute) and st.value.func.attr == "sort" and not st.value.args and not st.value.keywords \
@@ -1116,6 +1176,96 @@ def _pure_path(e) -> bool:
     while isinstance(e, ast.Attribute):
         e = e.value
     return isinstance(e, ast.Name)
+
+
+_KEYLOOP = [0]
+
+
+def key_loops_to_items(tree: ast.AST):
+    """`for k in D:` (or `D.keys()`) whose body reads `D[k]` - D a plain name / attribute path that the body neither
+    re-binds nor stores into - is `for k, v in D.items():` with `v` for every `D[k]` (a container subscripted by what it
+    yields is a mapping; its items are its keys paired with their values)."""
+    def rewrite(loop, comp=False):
+        it = loop.iter
+        if isinstance(it, ast.Call) and isinstance(it.func, ast.Attribute) and it.func.attr == "keys" and not it.args and not it.keywords:
+            it = it.func.value
+        if not (isinstance(loop.target, ast.Name) and _pure_path(it)):
+            return None
+        k = loop.target.id
+        dump = ast.dump(it)
+        return k, it, dump
+
+    def subst(nodes, k, dump, vname):
+        n = 0
+        for root in nodes:
+            for node in ast.walk(root):
+                for f_, val in ast.iter_fields(node):
+                    vals = val if isinstance(val, list) else [val]
+                    for i_, v in enumerate(vals):
+                        if isinstance(v, ast.Subscript) and isinstance(v.ctx, ast.Load) and isinstance(v.slice, ast.Name) and v.slice.id == k and ast.dump(v.value) == dump:
+                            new = ast.copy_location(ast.Name(id=vname, ctx=ast.Load()), v)
+                            if isinstance(val, list):
+                                val[i_] = new
+                            else:
+                                setattr(node, f_, new)
+                            n += 1
+        return n
+    for loop in [n for n in ast.walk(tree) if isinstance(n, ast.For) and not n.orelse]:
+        r = rewrite(loop)
+        if r is None:
+            continue
+        k, it, dump = r
+        body_nodes = [x for st in loop.body for x in ast.walk(st)]
+        reads = [x for x in body_nodes if isinstance(x, ast.Subscript) and isinstance(x.ctx, ast.Load) and isinstance(x.slice, ast.Name) and x.slice.id == k and ast.dump(x.value) == dump]
+        if not reads:
+            continue
+        root = it
+        while isinstance(root, ast.Attribute):
+            root = root.value
+        bad = False
+        for x in body_nodes:
+            if isinstance(x, ast.Name) and isinstance(x.ctx, (ast.Store, ast.Del)) and x.id in (k, root.id):
+                bad = True
+            elif isinstance(x, ast.Subscript) and isinstance(x.ctx, (ast.Store, ast.Del)) and ast.dump(x.value) == dump:
+                bad = True
+            elif isinstance(x, ast.Attribute) and isinstance(x.ctx, (ast.Store, ast.Del)) and ast.dump(x) == dump:
+                bad = True
+            elif isinstance(x, ast.Call) and isinstance(x.func, ast.Attribute) and ast.dump(x.func.value) == dump and x.func.attr in MUTATORS:
+                bad = True
+        if bad:
+            continue
+        _KEYLOOP[0] += 1
+        vname = f"_v__k{_KEYLOOP[0]}"
+        subst(loop.body, k, dump, vname)
+        loop.target = ast.copy_location(ast.Tuple(elts=[ast.Name(id=k, ctx=ast.Store()), ast.Name(id=vname, ctx=ast.Store())], ctx=ast.Store()), loop.target)
+        loop.iter = ast.copy_location(ast.Call(func=ast.Attribute(value=it, attr="items", ctx=ast.Load()), args=[], keywords=[]), loop.iter)
+        ast.fix_missing_locations(loop)
+    for comp in [n for n in ast.walk(tree) if isinstance(n, (ast.ListComp, ast.SetComp, ast.GeneratorExp, ast.DictComp))]:
+        if len(comp.generators) != 1:
+            continue
+        g = comp.generators[0]
+        r = rewrite(g)
+        if r is None:
+            continue
+        k, it, dump = r
+        parts = ([comp.key, comp.value] if isinstance(comp, ast.DictComp) else [comp.elt]) + list(g.ifs)
+        holder = ast.Module(body=[ast.Expr(value=ast.Tuple(elts=parts, ctx=ast.Load()))], type_ignores=[])
+        reads = [x for x in ast.walk(holder) if isinstance(x, ast.Subscript) and isinstance(x.ctx, ast.Load) and isinstance(x.slice, ast.Name) and x.slice.id == k and ast.dump(x.value) == dump]
+        if not reads:
+            continue
+        _KEYLOOP[0] += 1
+        vname = f"_v__k{_KEYLOOP[0]}"
+        subst([holder], k, dump, vname)
+        new_parts = holder.body[0].value.elts
+        if isinstance(comp, ast.DictComp):
+            comp.key, comp.value = new_parts[0], new_parts[1]
+            g.ifs = new_parts[2:]
+        else:
+            comp.elt = new_parts[0]
+            g.ifs = new_parts[1:]
+        g.target = ast.copy_location(ast.Tuple(elts=[ast.Name(id=k, ctx=ast.Store()), ast.Name(id=vname, ctx=ast.Store())], ctx=ast.Store()), g.target)
+        g.iter = ast.copy_location(ast.Call(func=ast.Attribute(value=it, attr="items", ctx=ast.Load()), args=[], keywords=[]), g.iter)
+        ast.fix_missing_locations(comp)
 
 
 def more_spellings(tree: ast.AST):
@@ -1148,6 +1298,13 @@ def more_spellings(tree: ast.AST):
             return new
         if isinstance(c.func, ast.Name) and c.func.id == "list" and len(c.args) == 1 and not c.keywords and isinstance(c.args[0], ast.Call) and isinstance(c.args[0].func, ast.Name) and c.args[0].func.id == "sorted":
             return c.args[0]
+        # set(a).union(b) is set(a) | set(b)
+        if isinstance(c.func, ast.Attribute) and c.func.attr == "union" and len(c.args) == 1 and not c.keywords and isinstance(c.func.value, ast.Call) and isinstance(c.func.value.func, ast.Name) \
+                and c.func.value.func.id == "set" and len(c.func.value.args) == 1:
+            rhs = c.args[0]
+            if not (isinstance(rhs, ast.Call) and isinstance(rhs.func, ast.Name) and rhs.func.id == "set"):
+                rhs = ast.Call(func=ast.Name(id="set", ctx=ast.Load()), args=[rhs], keywords=[])
+            return ast.BinOp(left=c.func.value, op=ast.BitOr(), right=rhs)
         return None
     changed = True
     rounds = 0
